@@ -823,10 +823,12 @@ def check_liveness(scn, res):
         # a consumer that falls silent (long process() call) for longer than the connection timeout counts as the fault
         stalls = [e for e in res.log if e['ev'] == 'process' and 'stall' in e and e['stall'][1] >= (scn.get('conn_timeout') or 5000)]
 
-        if not stalls:
+        if not stalls and scn.get('c06_nofault'):
+            kills = [{'f': None, 't': 0, 'restart': 0, 'nofault': True}]       # no fault: judged from the start (the bound covers start-up)
+        elif not stalls:
             return viols
-
-        kills = [{'f': stalls[0]['f'], 't': stalls[0]['stall'][0], 'restart': None, 'silent': True}]
+        else:
+            kills = [{'f': stalls[0]['f'], 't': stalls[0]['stall'][0], 'restart': None, 'silent': True}]
 
     k     = kills[0]
     t_rec = k['t'] + (k['restart'] or 0)
@@ -875,6 +877,11 @@ def check_liveness(scn, res):
             continue     # horizon too early to judge (cannot happen with after_ms)
 
         for t in times + [end]:
+            if t - prev > bound and prev + bound <= end and k.get('nofault'):
+                bad('deadlock-without-fault', f'no fault at all, the source still has frames, yet live sink {name} processed no new frame between {prev} and {t} ms '
+                    f'(bound {bound} ms; run ended at {end} ms)', {'sink': name, 'times': times[:30]})
+                break
+
             if t - prev > bound and prev + bound <= end:
                 bad('no-new-frame-within-bound', f'after {k["f"]} was killed at {k["t"]} ms (restart {"never" if k["restart"] is None else "at %d ms" % t_rec}), '
                     f'live sink {name} processed no new frame between {prev} and {t} ms (bound {bound} ms; run ended at {end} ms)',
@@ -882,6 +889,9 @@ def check_liveness(scn, res):
                 break
 
             prev = t
+
+    if k.get('nofault'):
+        return viols
 
     # a publisher whose required output is missing publishes nothing until it is back
     victim = fs[k['f']]
